@@ -50,7 +50,7 @@ func (r *checkRun) writeEvidence() error {
 			EndReached: rep.PathsByStatus["done"],
 		})
 		totalPaths += rep.Paths
-		totalDec += rep.Decisions
+		totalDec += rep.Decisions + rep.Chooses
 		totalObl += rep.Obligations
 		totalUnsat += rep.OblsUnsat
 		totalBySolver += rep.OblsSolver
@@ -130,7 +130,7 @@ func (r *checkRun) writeEvidence() error {
 		"ssa_load_build_seconds": r.loadTime.Seconds(),
 		"samples":              samples,
 		"violations_detail":    viol,
-		"engine_failures":      r.engineFail,
+		"engine_failures":      append([]string{}, r.engineFail...),
 		"exhaustive":           len(r.engineFail) == 0,
 		"replays_attempted":    len(r.violations),
 		"checker_cmd":          fmt.Sprintf("./check %s %s", r.prop.ID, r.tier),
